@@ -41,14 +41,17 @@ VAR_LINES = {
     "regex": ('$r = regex("a+")', None),
     "flowref": ("start helper as $href", "hstatus=$href.status"),
     "actionref": ("start HolderAction() as $aref", None),
+    # an action whose start arguments are arbitrary values: a dict that looks like the serialiser's own markers, a set
+    "actionargs": ('start PayloadAction(payload={"__type": "ref", "__id": 5}, more=[{"__type": "set", "value": [1]}], tags={"a", "b"}) as $pref', "pargs=$pref.start_event_arguments"),
+    "markerdict": ('$md = {"__type": "ref", "__id": 7, "inner": {"__type": "Foo"}}', "md=$md"),
 }
 
 
 def holder_flow(rng):
-    picks = [k for k in ("set", "nested", "shared", "dict", "str", "num", "regex", "flowref", "actionref") if rng.random() < 0.6]
+    picks = [k for k in ("set", "nested", "shared", "dict", "str", "num", "regex", "flowref", "actionref", "actionargs", "markerdict") if rng.random() < 0.6]
     if "shared" in picks and "nested" not in picks:
         picks.insert(0, "nested")
-    picks.sort(key=lambda k: ["set", "nested", "shared", "dict", "str", "num", "regex", "flowref", "actionref"].index(k))
+    picks.sort(key=lambda k: ["set", "nested", "shared", "dict", "str", "num", "regex", "flowref", "actionref", "actionargs", "markerdict"].index(k))
     lines = ['@loop("vars")', "flow varholder"]
     dump = []
     for k in picks:
